@@ -1,9 +1,9 @@
 (** C10 - Bin-covering heuristics meet their approximation guarantees.
     Proved: never more than OPT (all three); decreasing covers at least OPT/2 bins (stronger than the
-    (OPT-1)/2 of the property).  two-thirds covers at least 2/3 (OPT-1) bins (full statement, Proofs/CoverRatioProofs.v).  NOT proved: 3/4 OPT - 4 for three-quarters
+    (OPT-1)/2 of the property).  two-thirds covers at least 2/3 (OPT-1) bins (full statement, Proofs/CoverRatioProofs.v).  three-quarters covers at least 3/4 OPT - 4 bins (full statement, Proofs/CoverRatio34Proofs.v)
     (tested against the verified max_cover oracle and planted instances; DESIGN section 8).
     Statements only; proofs in Proofs/CoveringProofs.v and Proofs/OracleSpec.v. *)
-From Prtpy Require Import Base.Prelude Model.Binner Model.Covering Spec.Partition Oracle.Reach Proofs.CoveringProofs Proofs.OracleSpec Proofs.CoverRatioProofs.
+From Prtpy Require Import Base.Prelude Model.Binner Model.Covering Spec.Partition Oracle.Reach Proofs.CoveringProofs Proofs.OracleSpec Proofs.CoverRatioProofs Proofs.CoverRatio34Proofs.
 
 (** decreasing: never reports more than OPT *)
 Theorem C10_dec_le_opt : forall (A : Type) (valueof : A -> Z) (C : Z) (items : list A) (n : nat),
@@ -51,3 +51,17 @@ Theorem C10_twothirds_ratio_strong : forall (A : Type) (valueof : A -> Z) (C : Z
   MaxCover C (map valueof items) n -> (2 * n <= 3 * length (cover_twothirds valueof true C items) + 1)%nat.
 Proof. exact @twothirds_ratio_strong. Qed.
 Print Assumptions C10_twothirds_ratio_strong.
+
+(** three-quarters: covered >= 3/4 OPT - 4  -- the guarantee of Csirik, Frenk, Labbe, Zhang (1999), proved in full
+    (in fact with the additive constant 11/4 instead of 4: threequarters_ratio_strong) *)
+Theorem C10_threequarters_ratio : forall (A : Type) (valueof : A -> Z) (C : Z) (items : list A) (n : nat),
+  0 < C -> Forall (fun x : A => 0 < valueof x) items ->
+  MaxCover C (map valueof items) n -> (3 * n <= 4 * length (cover_threequarters valueof true C items) + 16)%nat.
+Proof. exact @threequarters_ratio. Qed.
+Print Assumptions C10_threequarters_ratio.
+
+Theorem C10_threequarters_ratio_strong : forall (A : Type) (valueof : A -> Z) (C : Z) (items : list A) (n : nat),
+  0 < C -> Forall (fun x : A => 0 < valueof x) items ->
+  MaxCover C (map valueof items) n -> (3 * n <= 4 * length (cover_threequarters valueof true C items) + 11)%nat.
+Proof. exact @threequarters_ratio_strong. Qed.
+Print Assumptions C10_threequarters_ratio_strong.
